@@ -446,22 +446,6 @@ func verify(o *Obj, r Rng, out outcome) string {
 	return ""
 }
 
-// fpSeekEOF: non-full ReadObjectParts/ReadObject on a legacy compressed file that is smaller than the
-// first read but decompresses to more than the caller's buffer fails with "seek payload stream: EOF"
-// when the range starts beyond the buffered payload bytes.
-const fpSeekEOF = "C11:readobjectparts-seek-eof-legacy-compressed"
-
-func inSeekEOFClass(apiName string, o *Obj, r Rng, v variant) bool {
-	if apiName != "ReadObjectParts" && apiName != "ReadObject" {
-		return false
-	}
-	if !partial(r) || !o.Spec.Compress || len(o.Stored) >= hdrBuf || len(o.Bin) <= v.bufLen {
-		return false
-	}
-	off, _, oor := Ref(r, uint64(len(o.Payload)))
-	return !oor && int(off) > v.bufLen-(len(o.Bin)-len(o.Payload))
-}
-
 // ---------- world ----------
 
 type world struct {
@@ -638,11 +622,6 @@ func TestC11Layers(t *testing.T) {
 						if !a.allModes && q.r.Mode != common.PayloadRangeModeOffsetLength {
 							continue
 						}
-						seekCls := inSeekEOFClass(a.name, q.o, q.r, q.v)
-						if seekCls && ev.IsOpen("C11", fpSeekEOF) {
-							rec.Excluded(1)
-							continue
-						}
 						out := a.call(q.o, q.r, q.v)
 						if l.name == "writecache" && errors.Is(out.err, apistatus.ErrObjectNotFound) {
 							// background flush (1 s ticker) moved it to the backing storage meanwhile
@@ -653,9 +632,6 @@ func TestC11Layers(t *testing.T) {
 						}
 						rec.Label("q:" + l.name + "/" + a.name)
 						if msg := verify(q.o, q.r, out); msg != "" {
-							if seekCls && out.err != nil && strings.Contains(out.err.Error(), "seek payload stream: EOF") && rec.Known(fpSeekEOF) {
-								continue
-							}
 							t.Fatalf("%s %s.%s(%s) on object %s [pass %s, prefix boundary P=%d, variant %+v]:\n  %s",
 								pass, l.name, a.name, q.r, q.o.Spec, pass, q.o.P, q.v, msg)
 						}
